@@ -1,96 +1,234 @@
-From Coq Require Import List Arith Lia ZArith.
+(* C04 — model of the subsampled estimation path of
+     /repo/outrank/algorithms/feature_ranking/ranking_mi_numba.py
+   (stratified_subsampling, and mutual_info_estimator_numba / compute_entropies as they are used when
+   approximation_factor < 1.0).  Model only: definitions, no proofs (proofs are in MI/SubProofs.v), so the
+   model still evaluates when a proof breaks.
+
+   Conventions.  Call shape  mutual_info_estimator_numba(Y, X, r, c):
+     X  second argument; the strata are the distinct values of X ("target values" of the property text);
+     Y  first argument (the feature whose classes are counted inside each stratum);
+     r  the EXACT rational value of the float32 argument (a dyadic rational num/2^k, passed as a [Q]).
+        Remark (not a Coq theorem, no Flocq here): for n < 2^29 the code's float computation
+        int(float32 * int64) is exact — numba promotes to float64, the product of a 24-bit significand and a
+        29-bit integer has < 53 bits — and int(a / b) on integers a, b < 2^53 equals floor(a / b); so
+        floor(floor(r*n) / #values) below is what the code computes, for 0 <= r.
+     c  cardinality_correction.
+   Values are [Z] (codes >= 0 in every call the harness makes; the transcription of numba_unique below is
+   sort + count and agrees with the container-based code exactly on codes >= 0), positions are [nat].
+
+   The index buffer `final_index_array = np.empty(final_space_size)` is explicit: a cell is either
+   [Written i] or [Garbage]; a garbage cell at position p, when used as a row index, yields [g p] — the
+   garbage oracle g : nat -> Z stands for whatever earlier allocations left in that memory after the
+   astype(int32) conversion.  Quantifying over g is quantifying over all allocator histories.
+   A row index outside [0, n) is the error value [IndexOutOfRange] (stratified_subsampling is compiled without
+   bounds checks: the real behaviour is an arbitrary read or a crash); a slice assignment that does not fit
+   into the buffer is [WriteOutOfRange]. *)
+From Coq Require Import List Arith ZArith QArith Bool.
 Import ListNotations.
+Local Close Scope Q_scope.
 
-(* the index buffer of stratified_subsampling, with uninitialised cells made explicit *)
-Section Buffer.
+Inductive error := WriteOutOfRange | IndexOutOfRange.
+Inductive result (A : Type) := Ok (a : A) | Error (e : error).
+Arguments Ok {A} a.
+Arguments Error {A} e.
 
-  Variable garbage : nat -> nat.          (* whatever earlier allocations left in cell i: the allocator history *)
-  Definition buffer := list (option nat). (* None = never written *)
+Definition bind {A B} (r : result A) (f : A -> result B) : result B :=
+  match r with Ok a => f a | Error e => Error e end.
 
-  Fixpoint write (buf : buffer) (off : nat) (xs : list nat) : buffer :=
-    match xs with
-    | [] => buf
-    | x :: r => write (firstn off buf ++ Some x :: skipn (S off) buf) (S off) r
-    end.
+Fixpoint mapM {A B} (f : A -> result B) (l : list A) : result (list B) :=
+  match l with
+  | [] => Ok []
+  | a :: t => bind (f a) (fun b => bind (mapM f t) (fun bs => Ok (b :: bs)))
+  end.
 
-  (* one pass of the loop: per value, take the first q indices of its stratum and write them at the running offset *)
-  Fixpoint fill (buf : buffer) (off : nat) (strata : list (list nat)) (q : nat) : buffer * nat :=
-    match strata with
-    | [] => (buf, off)
-    | s :: r => let xs := firstn q s in fill (write buf off xs) (off + length xs) r q
-    end.
+(* ---- numba_unique: distinct values in increasing order, with their counts ------------------------- *)
+Fixpoint insert_count (v : Z) (l : list (Z * nat)) : list (Z * nat) :=
+  match l with
+  | [] => [(v, 1)]
+  | (w, k) :: t => if (v <? w)%Z then (v, 1) :: l
+                   else if (v =? w)%Z then (w, S k) :: t
+                   else (w, k) :: insert_count v t
+  end.
+Definition numba_unique (a : list Z) : list (Z * nat) := fold_right insert_count [] a.
+Definition f_values (X : list Z) : list Z := map fst (numba_unique X).
 
-  Definition read (buf : buffer) : list nat := map (fun '(i, c) => match c with Some x => x | None => garbage i end) (combine (seq 0 (length buf)) buf).
+(* ---- np.where(X == v)[0] ---------------------------------------------------------------------------- *)
+Fixpoint where_from (k : nat) (X : list Z) (v : Z) : list nat :=
+  match X with
+  | [] => []
+  | x :: t => if (x =? v)%Z then k :: where_from (S k) t v else where_from (S k) t v
+  end.
+Definition where_eq (X : list Z) (v : Z) : list nat := where_from 0 X v.
 
-  (* old code: uses the whole buffer; repaired code: only the written prefix [:off] *)
-  Definition result_old (size : nat) strata q := read (fst (fill (repeat None size) 0 strata q)).
-  Definition result_new (size : nat) strata q := let '(b, off) := fill (repeat None size) 0 strata q in read (firstn off b).
+(* ---- sizes ------------------------------------------------------------------------------------------- *)
+(* int(approximation_factor * all_events) *)
+Definition final_space_size (r : Q) (n : nat) : nat := Z.to_nat ((Qnum r * Z.of_nat n) / Zpos (Qden r)).
+(* int(final_space_size / len(_f_values_X));  x / 0 = 0 in nat, the code is never called with no values (n >= 1) *)
+Definition quota_of (r : Q) (n : nat) (nvalues : nat) : nat := final_space_size r n / nvalues.
+Definition quota (X : list Z) (r : Q) : nat := quota_of r (length X) (length (f_values X)).
 
-  Lemma write_length xs : forall buf off, off + length xs <= length buf -> length (write buf off xs) = length buf.
-  Proof.
-    induction xs as [|x r IH]; intros buf off H; [reflexivity|]. cbn [write length] in *.
-    rewrite IH; rewrite app_length; cbn [length]; rewrite firstn_length, skipn_length; lia.
-  Qed.
+(* ---- the index buffer -------------------------------------------------------------------------------- *)
+Inductive cell := Written (i : nat) | Garbage.
+Definition buffer := list cell.
 
-  Lemma write_prefix xs : forall buf off, off + length xs <= length buf ->
-    firstn (off + length xs) (write buf off xs) = firstn off buf ++ map Some xs.
-  Proof.
-    induction xs as [|x r IH]; intros buf off H.
-    - cbn. rewrite Nat.add_0_r, app_nil_r. reflexivity.
-    - cbn [write length map] in *.
-      assert (Hl : length (firstn off buf ++ Some x :: skipn (S off) buf) = length buf)
-        by (rewrite app_length; cbn [length]; rewrite firstn_length, skipn_length; lia).
-      replace (off + S (length r)) with (S off + length r) by lia.
-      rewrite IH by (rewrite Hl; lia).
-      assert (E : firstn (S off) (firstn off buf ++ Some x :: skipn (S off) buf) = firstn off buf ++ [Some x]).
-      { rewrite firstn_app, firstn_length, Nat.min_l by lia.
-        replace (S off - off) with 1 by lia. rewrite firstn_all2 by (rewrite firstn_length; lia). reflexivity. }
-      rewrite E, <- app_assoc. reflexivity.
-  Qed.
+(* final_index_array[off : off + len(xs)] = xs *)
+Definition write (buf : buffer) (off : nat) (xs : list nat) : result buffer :=
+  if off + length xs <=? length buf
+  then Ok (firstn off buf ++ map Written xs ++ skipn (off + length xs) buf)
+  else Error WriteOutOfRange.
 
-  Lemma fill_spec strata q : forall buf off,
-    off + length (concat (map (firstn q) strata)) <= length buf ->
-    let '(b, off') := fill buf off strata q in
-    off' = off + length (concat (map (firstn q) strata)) /\ length b = length buf /\
-    firstn off' b = firstn off buf ++ map Some (concat (map (firstn q) strata)).
-  Proof.
-    induction strata as [|s r IH]; intros buf off H; cbn [fill map concat].
-    - cbn. rewrite Nat.add_0_r, app_nil_r. auto.
-    - cbn [map concat] in H. rewrite app_length in H.
-      specialize (IH (write buf off (firstn q s)) (off + length (firstn q s))).
-      rewrite write_length in IH by lia.
-      destruct (fill (write buf off (firstn q s)) (off + length (firstn q s)) r q) as [b off'].
-      destruct IH as (H1 & H2 & H3); [lia|]. repeat split.
-      + rewrite H1, app_length. lia.
-      + exact H2.
-      + rewrite H3, write_prefix by lia. rewrite map_app, <- app_assoc. reflexivity.
-  Qed.
+(* the loop `for fval in _f_values_X` carrying (buffer, index_offset) *)
+Fixpoint fill (X : list Z) (q : nat) (fvals : list Z) (buf : buffer) (off : nat) : result (buffer * nat) :=
+  match fvals with
+  | [] => Ok (buf, off)
+  | v :: rest => let xs := firstn q (where_eq X v) in
+                 bind (write buf off xs) (fun buf' => fill X q rest buf' (off + length xs))
+  end.
 
-  (* C04_all_written + C04_garbage_indep + C04_prefix_rows for the repaired code *)
-  Theorem result_new_spec size strata q :
-    length (concat (map (firstn q) strata)) <= size ->
-    result_new size strata q = concat (map (firstn q) strata).
-  Proof.
-    intros H. unfold result_new.
-    pose proof (fill_spec strata q (repeat None size) 0) as F. rewrite repeat_length in F.
-    destruct (fill (repeat None size) 0 strata q) as [b off]. destruct F as (H1 & H2 & H3); [lia|].
-    cbn [firstn app] in H3. rewrite H3. unfold read. rewrite map_length.
-    set (xs := concat (map (firstn q) strata)). clearbody xs. clear.
-    assert (G : forall k, map (fun '(i, c) => match c with Some x => x | None => garbage i end)
-                               (combine (seq k (length xs)) (map Some xs)) = xs).
-    { induction xs as [|x r IH]; intros k; [reflexivity|]. cbn. rewrite IH. reflexivity. }
-    apply G.
-  Qed.
-End Buffer.
+(* the value a cell yields when it is used as a row index *)
+Definition read_cell (g : nat -> Z) (p : nat) (c : cell) : Z :=
+  match c with Written i => Z.of_nat i | Garbage => g p end.
+Definition read_buffer (g : nat -> Z) (buf : buffer) : list Z :=
+  map (fun pc => read_cell g (fst pc) (snd pc)) (combine (seq 0 (length buf)) buf).
 
-(* the result of the repaired code does not mention the garbage oracle at all *)
-Corollary garbage_indep g1 g2 size strata q :
-  length (concat (map (firstn q) strata)) <= size ->
-  result_new g1 size strata q = result_new g2 size strata q.
-Proof. intros H. rewrite !result_new_spec by exact H. reflexivity. Qed.
+(* A[z] for a row index z taken from the buffer *)
+Definition get_row (A : list Z) (z : Z) : result Z :=
+  if ((0 <=? z) && (z <? Z.of_nat (length A)))%Z
+  then match nth_error A (Z.to_nat z) with Some a => Ok a | None => Error IndexOutOfRange end
+  else Error IndexOutOfRange.
 
-(* the old code does depend on it: X = [0]*7 ++ [1;2;2], size 6, quota 2 *)
-Example old_refuted : exists g1 g2 : nat -> nat,
-  result_old g1 6 [[0;1;2;3;4;5;6]; [7]; [8;9]] 2 <> result_old g2 6 [[0;1;2;3;4;5;6]; [7]; [8;9]] 2.
-Proof. exists (fun _ => 3), (fun _ => 9). vm_compute. discriminate. Qed.
-Print Assumptions garbage_indep.
+(* the two versions of the line after the loop:
+     Repaired:  final_index_array[:index_offset].astype(np.int32)      (fix commit 6ef24c0)
+     PreFix:    final_index_array.astype(np.int32)                      (whole buffer)            *)
+Inductive version := Repaired | PreFix.
+Definition index_cells (ver : version) (buf : buffer) (off : nat) : buffer :=
+  match ver with Repaired => firstn off buf | PreFix => buf end.
+
+Definition subsample_gen (ver : version) (g : nat -> Z) (Y X : list Z) (r : Q) (fvals : list Z)
+  : result (list Z * list Z) :=
+  let fs := final_space_size r (length X) in
+  let q := fs / length fvals in
+  if q =? 0 then Ok (Y, X) else
+  bind (fill X q fvals (repeat Garbage fs) 0) (fun bo =>
+  let idx := read_buffer g (index_cells ver (fst bo) (snd bo)) in
+  bind (mapM (get_row X) idx) (fun X' =>
+  bind (mapM (get_row Y) idx) (fun Y' => Ok (Y', X')))).
+
+(* stratified_subsampling(Y, X, r, f_values) as called by the estimator *)
+Definition subsample (g : nat -> Z) (Y X : list Z) (r : Q) : result (list Z * list Z) :=
+  subsample_gen Repaired g Y X r (f_values X).
+
+(* the cells of the buffer the repaired code converts to row indices (None-free version of the state named in
+   the property's anchors: "index buffer of the sampled rows") *)
+Definition used_cells (X : list Z) (r : Q) : result buffer :=
+  let fs := final_space_size r (length X) in
+  let q := quota X r in
+  if q =? 0 then Ok [] else
+  bind (fill X q (f_values X) (repeat Garbage fs) 0) (fun bo => Ok (firstn (snd bo) (fst bo))).
+
+(* ---- the rows the property says are used -------------------------------------------------------------- *)
+Definition sampled_indices (X : list Z) (r : Q) : list nat :=
+  if quota X r =? 0 then seq 0 (length X)
+  else concat (map (fun v => firstn (quota X r) (where_eq X v)) (f_values X)).
+Definition rows (A : list Z) (idx : list nat) : list Z := map (fun i => nth i A 0%Z) idx.
+
+(* ---- compute_entropies: exact integer term structure --------------------------------------------------- *)
+Record stratum := { s_cnt : nat;            (* f_value_counts[f_index]: size of the stratum in the ORIGINAL X *)
+                    s_real : list nat;      (* nonzero_class_counts, one entry per class value of the sample *)
+                    s_spoof : list nat }.   (* nonzero_class_counts_spoofed *)
+Record terms := { t_n : nat;                (* all_events = len(original X) *)
+                  t_classes : list nat;     (* class_counts of the (sub)sampled Y *)
+                  t_strata : list stratum;  (* strata with original count <> 1, in f_values order *)
+                  t_corr : bool;            (* cardinality_correction after the self-pair test *)
+                  t_factor : Q }.           (* approximation_factor *)
+
+Definition count_eq (l : list Z) (c : Z) : nat := length (filter (Z.eqb c) l).   (* np.count_nonzero(l == c) *)
+
+Definition get_pos (A : list Z) (p : nat) : result Z :=
+  match nth_error A p with Some a => Ok a | None => Error IndexOutOfRange end.
+
+Definition stratum_of (X' Y' : list Z) (class_values : list Z) (v : Z) (cnt : nat) : result stratum :=
+  let pos := where_eq X' v in                                           (* x_value_subspace[0] *)
+  bind (mapM (get_pos Y') pos) (fun Ycl =>                             (* Y[x_value_subspace] *)
+  bind (mapM (fun el => get_pos Y' ((el + cnt) mod length Y')) pos) (fun Ysp =>   (* Y[(el + cnt) % len(Y)] *)
+  Ok {| s_cnt := cnt; s_real := map (count_eq Ycl) class_values; s_spoof := map (count_eq Ysp) class_values |})).
+
+Definition compute_entropies (X' Y' : list Z) (all_events : nat) (fv : list (Z * nat)) (c : bool) (r : Q)
+  : result terms :=
+  let cls := numba_unique Y' in
+  bind (mapM (fun vc => stratum_of X' Y' (map fst cls) (fst vc) (snd vc))
+             (filter (fun vc => negb (snd vc =? 1)) fv)) (fun ss =>
+  Ok {| t_n := all_events; t_classes := map snd cls; t_strata := ss; t_corr := c; t_factor := r |}).
+
+Definition veq (A B : list Z) : bool := if list_eq_dec Z.eq_dec A B then true else false.   (* np.array_equal *)
+Definition lt_one (r : Q) : bool := (Qnum r <? Zpos (Qden r))%Z.                              (* r < 1.0 *)
+
+Definition entry_gen (ver : version) (g : nat -> Z) (Y X : list Z) (r : Q) (c : bool) : result terms :=
+  let fv := numba_unique X in
+  let c' := c && negb (veq X Y) in
+  bind (if lt_one r then subsample_gen ver g Y X r (map fst fv) else Ok (Y, X)) (fun YX =>
+  compute_entropies (snd YX) (fst YX) (length X) fv c' r).
+
+(* mutual_info_estimator_numba(Y, X, r, c), current code *)
+Definition entry (g : nat -> Z) (Y X : list Z) (r : Q) (c : bool) : result terms := entry_gen Repaired g Y X r c.
+(* before fix 6ef24c0 *)
+Definition entry_old (g : nat -> Z) (Y X : list Z) (r : Q) (c : bool) : result terms := entry_gen PreFix g Y X r c.
+
+(* closed form of the term structure on given sample rows (total: default 0 for impossible reads) *)
+Definition stratum_spec (X' Y' : list Z) (class_values : list Z) (v : Z) (cnt : nat) : stratum :=
+  let pos := where_eq X' v in
+  {| s_cnt := cnt;
+     s_real := map (count_eq (rows Y' pos)) class_values;
+     s_spoof := map (count_eq (rows Y' (map (fun el => (el + cnt) mod length Y') pos))) class_values |}.
+Definition terms_spec (X' Y' : list Z) (all_events : nat) (fv : list (Z * nat)) (c : bool) (r : Q) : terms :=
+  let cls := numba_unique Y' in
+  {| t_n := all_events; t_classes := map snd cls;
+     t_strata := map (fun vc => stratum_spec X' Y' (map fst cls) (fst vc) (snd vc))
+                     (filter (fun vc => negb (snd vc =? 1)) fv);
+     t_corr := c; t_factor := r |}.
+Definition entry_indices (X : list Z) (r : Q) : list nat :=
+  if lt_one r then sampled_indices X r else seq 0 (length X).
+
+(* ---- what is fed to np.log and what is divided by ------------------------------------------------------ *)
+(* every (numerator, denominator) whose quotient is an argument of np.log, after the code's `!= 0` guard *)
+Definition nonzero (k : nat) : bool := negb (k =? 0).
+Definition log_args (t : terms) : list (nat * nat) :=
+  (if t_corr t then [] else map (fun k => (k, t_n t)) (t_classes t)) ++
+  flat_map (fun s => map (fun k => (k, s_cnt s)) (filter nonzero (s_real s)) ++
+                     (if t_corr t then map (fun k => (k, s_cnt s)) (filter nonzero (s_spoof s)) else []))
+           (t_strata t).
+(* every divisor: all_events (class probability, initial_prob) and the stratum sizes (conditional_prob) *)
+Definition denominators (t : terms) : list nat := t_n t :: map s_cnt (t_strata t).
+
+(* ---- Appendix-C interface: case, observable, encoder, checker ------------------------------------------ *)
+Definition C04_case : Type := (list Z * list Z * Q * bool)%type.                 (* Y, X, r, c *)
+Definition C04_obs : Type := (list Z * list Z)%type.                             (* arrays returned by stratified_subsampling *)
+Definition no_garbage : nat -> Z := fun _ => 0%Z.
+
+Definition enc_counts (l : list nat) : list Z := map Z.of_nat (filter nonzero l).
+Definition enc_terms (t : terms) :=
+  (Z.of_nat (t_n t), map Z.of_nat (t_classes t),
+   map (fun s => (Z.of_nat (s_cnt s), enc_counts (s_real s), enc_counts (s_spoof s))) (t_strata t),
+   t_corr t, (Qnum (t_factor t), Zpos (Qden (t_factor t)))).
+Definition enc_error (e : error) : Z := match e with WriteOutOfRange => 1%Z | IndexOutOfRange => 2%Z end.
+
+(* the model's observable for a case: Some (encoded terms) or None with the error code *)
+Definition C04_model (k : C04_case) :=
+  let '(Y, X, r, c) := k in
+  match entry no_garbage Y X r c with
+  | Ok t => (0%Z, Some (enc_terms t))
+  | Error e => (enc_error e, None)
+  end.
+
+Definition list_Z_eqb (a b : list Z) : bool := if list_eq_dec Z.eq_dec a b then true else false.
+(* checker for what the implementation's stratified_subsampling returned *)
+Definition C04_check (k : C04_case) (o : C04_obs) : bool :=
+  let '(Y, X, r, c) := k in
+  list_Z_eqb (fst o) (rows Y (sampled_indices X r)) && list_Z_eqb (snd o) (rows X (sampled_indices X r)).
+(* hypothesis of outside-irrelevance as a boolean: Y2 agrees with Y on the sampled rows, and the self-pair
+   test answers the same or the flag is off *)
+Definition agree_on (idx : list nat) (Y Y2 : list Z) : bool :=
+  forallb (fun i => (nth i Y 0 =? nth i Y2 0)%Z) idx.
+Definition outside_hyp (k : C04_case) (Y2 : list Z) : bool :=
+  let '(Y, X, r, c) := k in
+  (length Y2 =? length X) && agree_on (entry_indices X r) Y Y2 && (Bool.eqb (veq X Y) (veq X Y2) || negb c).
